@@ -1935,6 +1935,7 @@ fn run_c16(ch: &mut Choices, rep: &mut RunReport) -> Outcome {
             let mut sub = base.clone();
             let case2 = gen_will_case(&mut sub);
             let mut subrep = RunReport::new(first && rep.lines.is_some());
+            crate::core::heartbeat();
             let out = run_will_point(&case2, k, way, &mut sub, &mut subrep);
             crate::core::fnv(&mut rep.hash, &subrep.hash.to_le_bytes());
             rep.steps += subrep.steps;
